@@ -46,7 +46,7 @@ def len_marks(b, base=0, depth=0):
                     l |= (x & 0x7f) << sh; sh += 7
                     if x < 0x80:
                         break
-                marks.append({"pos": base + s0, "w": j - s0, "kind": "len"})
+                marks.append({"pos": base + s0, "w": j - s0, "kind": "len", "l": l, "depth": depth})
                 if depth < 4 and l >= 2:
                     sub = len_marks(b[j:j + l], base + j, depth + 1)
                     if sub is not None:
@@ -119,12 +119,20 @@ def run(rep, tier, seed, replay):
                     else:
                         vb.append(bb)
                         break
-                fl.append(("overwrite-len", [mk["pos"], v], enc[:mk["pos"]] + vb + enc[mk["pos"] + mk["w"]:]))
+                # "a length prefix that exceeds the remaining input is rejected": demanded for the prefixes of TOP-LEVEL records
+                # (the mechanical walk may take bytes inside a string for a nested prefix; the top level is unambiguous)
+                must = "err" if (mk["depth"] == 0 and v > rem) else None
+                fl.append(("overwrite-len", [mk["pos"], v], enc[:mk["pos"]] + vb + enc[mk["pos"] + mk["w"]:], must))
         fl += list(faults.pb_payload_faults(enc)) + list(faults.pb_key_faults(enc))
-        for kind, detail, data in fl:
-            add(path, "decode", data, {"site": "generated", "fault": kind, "detail": detail, "msg": cs["ty"], "schema": cs["sid"], "expect": None})
+        top = [mk for mk in marks if mk["depth"] == 0]
+        for f in fl:
+            kind, detail, data = f[0], f[1], f[2]
+            must = f[3] if len(f) > 3 else None
+            if kind == "truncate" and any(mk["pos"] + mk["w"] <= len(data) < mk["pos"] + mk["w"] + mk["l"] for mk in top):
+                must = "err"          # cut inside the payload of a top-level record: its prefix exceeds what is left
+            add(path, "decode", data, {"site": "generated", "fault": kind, "detail": detail, "msg": cs["ty"], "schema": cs["sid"], "expect": must})
             if kind != "bitflip":
-                add(path, "ld", varint(len(data)) + data, {"site": "length-delimited", "fault": kind, "detail": detail, "msg": cs["ty"], "schema": cs["sid"], "expect": None})
+                add(path, "ld", varint(len(data)) + data, {"site": "length-delimited", "fault": kind, "detail": detail, "msg": cs["ty"], "schema": cs["sid"], "expect": must})
         # a length-delimited frame whose prefix exceeds the payload
         for v in (len(enc) + 1, 2**31 - 1, 2**64 - 1):
             vb, x = [], v
@@ -188,7 +196,7 @@ def run(rep, tier, seed, replay):
         elif r.get("panic"):
             what = "panic"
         elif m["expect"] == "err" and r.get("ok"):
-            what = "accepted-beyond-limit"
+            what = "accepted-beyond-limit" if m["fault"] in ("nest", "frame-length") else "length-prefix-beyond-input-accepted"
         elif m["expect"] == "ok" and not r.get("ok"):
             what = "rejected-within-limit"
         if what is None:
